@@ -103,10 +103,70 @@ func vC03Run(w *vWorld, orders bool) {
 	}
 }
 
-func vh_C03_schemas() { vC03Run(vWorldSchemas(), true) }
+func vh_C03_schemas()         { vC03Run(vWorldSchemas(), true) }
 func vh_C03_chain_params()    { vC03Run(vWorldChains(0), false) }
 func vh_C03_chain_responses() { vC03Run(vWorldChains(1), false) }
 func vh_C03_chain_pathitems() { vC03Run(vWorldChains(2), false) }
 
+func vh_C03_imports_params()    { vC03Run(vWorldImports(0), false) }
+func vh_C03_imports_responses() { vC03Run(vWorldImports(1), false) }
+func vh_C03_imports_item()      { vC03Run(vWorldImports(2), false) }
+func vh_C03_ops()               { vC03Run(vWorldOps(false), false) }
+
 func vh_C03_ports()     { vC03Run(vWorldPorts(), true) }
 func vh_C03_casetwins() { vC03Run(vWorldCaseTwins(), true) }
+
+// an in-memory document expanded without any location (nil options, or options without RelativeBase): the
+// same obligations, the remaining $refs being read as pointers into the document itself
+func vh_C03_nobase() {
+	w := vWorldLocalDoc()
+	root, ok := w.decodeRoot()
+	if !ok {
+		return
+	}
+	abs := vNondetBool("AbsoluteCircularRef")
+	var opts *ExpandOptions
+	if abs || vChoose(2, "opts") == 1 {
+		opts = &ExpandOptions{AbsoluteCircularRef: abs}
+	}
+	vMapOrder(true)
+	err := ExpandSpec(root, opts)
+	vMapOrder(false)
+	vAssert(err == nil, "expansion of an in-memory document whose references are all local fails")
+	if err != nil {
+		return
+	}
+	out, merr := json.Marshal(root)
+	if merr != nil {
+		return
+	}
+	var g interface{}
+	if json.Unmarshal(out, &g) != nil {
+		return
+	}
+	var refs [][2]string
+	vAllRefs(g, "", &refs)
+	if !w.cyclicFrom(vNodeID{w.root, ""}) {
+		vAssert(len(refs) == 0, "an acyclic specification keeps a $ref after full expansion")
+	}
+	for _, hr := range refs {
+		r := hr[1]
+		u, perr := url.Parse(r)
+		vAssert(perr == nil, "a $ref left by the expansion is not a URI reference")
+		if perr != nil {
+			continue
+		}
+		id := vNodeID{w.root, u.Fragment}
+		_, exists := w.node(id)
+		vAssert(exists, "a $ref left by the expansion does not designate a node of the document")
+		if !exists {
+			continue
+		}
+		vAssert(w.onCycle(id), "a $ref left by the expansion designates a node that is not on a reference cycle")
+		if abs {
+			vAssert(vIsAbsURL(r), "with AbsoluteCircularRef a remaining $ref is not an absolute URL")
+		} else {
+			vAssert(strings.HasPrefix(r, "#"), "a remaining $ref into the document itself is not fragment-only")
+		}
+	}
+}
